@@ -4,7 +4,7 @@
    that the writer's mechanism satisfies the abstract properties (C01 / C06 / C07), and prints
    every complete layout as a behaviour to be replayed on the real writer and readers. *)
 EXTENDS BigWigSpec, Json
-CONSTANTS NC, L, MaxItems, MaxPerChrom, Vals, IPS, ZoomLists
+CONSTANTS MinItems, NC, L, MaxItems, MaxPerChrom, Vals, IPS, ZoomLists
 VARIABLES input, cur, pos, nIn, done, ips, zl
 vars == <<input, cur, pos, nIn, done, ips, zl>>
 ZL == CASE ZoomLists = "a" -> {<<>>, <<2>>, <<3>>, <<2, 4>>}
@@ -21,7 +21,7 @@ AddVal(s, e, v) ==
 NextChrom(c) ==
   /\ ~done /\ (cur = 0 \/ nIn > 0) /\ Len(input) < MaxItems
   /\ cur' = c /\ pos' = 0 /\ nIn' = 0 /\ UNCHANGED <<input, done, ips, zl>>
-Finish == /\ ~done /\ cur > 0 /\ nIn > 0 /\ done' = TRUE /\ UNCHANGED <<input, cur, pos, nIn, ips, zl>>
+Finish == /\ ~done /\ cur > 0 /\ nIn > 0 /\ Len(input) >= MinItems /\ done' = TRUE /\ UNCHANGED <<input, cur, pos, nIn, ips, zl>>
 Next == \/ \E s \in pos..L : \E e \in s..L : \E v \in Vals : AddVal(s, e, v)
         \/ \E c \in (cur + 1)..NC : NextChrom(c)
         \/ Finish
